@@ -7,7 +7,12 @@ A, B = ('wild', 'a'), ('wild', 'b')
 X, XX = ('var', 'x'), ('var', 'xx')
 
 def kernel_part(chk, configs):
-    for n, c in configs:
+    from ..run import run_parallel
+    run_parallel(chk, 'hv.props.c01', 'kernel_one', list(configs))
+
+def kernel_one(chk, cfg):
+    n, c = cfg
+    if True:
         lab = KL.Lab(chk, n, c)
         a, b = lab.set('a'), lab.set('b'); st, cb = lab.steady, lab.cb; wild = {'a': a, 'b': b}
         un = {'not': ('eval_neg', [a]), 'EX': ('eval_ex', [a, st]), 'AX': ('eval_ax', [a, st]), 'EF': ('eval_ef_saturated', [a, cb]), 'AF': ('eval_af', [a, st, cb]),
